@@ -13,6 +13,8 @@ from ..values import Arr, RaisedInAnalysed, Unsupported
 from .common import find_entry, interiors, short
 from .simtools import FLOW, build_sim, sim_configs
 
+CASE_SPLIT = True     # orderings between different grid sizes are analysed case by case (regions.run_under_size_cases)
+
 
 def timestep_of(S, cfg, rep):
     run = build_sim(S, cfg)
